@@ -430,11 +430,11 @@ def get_agents_post(self, args, tag, result, old):
 contract('Core.Environment.get_agents',
          params={'self': 'ref:Environment', '*args': 'list[cls]', 'tag': 'int'}, returns='list[ref:Agent]',
          requires=[Env_rep],
-         ensures={'C13': [get_agents_post]},
+         ensures={'C13': [get_agents_post], 'C04': [get_agents_post]},
          modifies=['new:list[ref:Agent]'],
          locals={'matching_agents': 'list[ref:Agent]'}, roles={'matching_agents': 'emptylist#0'},
          cases=[dict(name='tag', params={'tag': 'int'}), dict(name='notag', params={'tag': 'none'})],
-         props=['C13'])
+         props=['C13', 'C04'])
 
 
 # ------------------------------------------------------------------------------------------------ dict views
